@@ -143,7 +143,10 @@ fn set_entry(s: &mut Script, rng: &mut Rng, e: i64, vs: Option<&ValidStream>, zl
         10 => {
             s.set("entry", 0);
             s.set("mode", 1);
-            let minb = vs.map(|v| min_ring_bits(v.max_dist, zlib, v.cinfo)).unwrap_or(8);
+            let mut minb = vs.map(|v| min_ring_bits(v.max_dist, zlib, v.cinfo)).unwrap_or(8);
+            if vs.map(|v| v.plain_len > 4096).unwrap_or(false) {
+                minb = minb.max(8); // tiny rings on big outputs only multiply the call count
+            }
             let bits = if rng.chance(1, 3) { 15 } else { rng.range(minb.min(16), 16) };
             s.set("ring_bits", bits as i64);
             s.set("ringfill", rng.below(1 << 30) as i64);
